@@ -96,7 +96,8 @@ def main(argv):
                 first = {"cls": cls, "labels": labels, "nphys": nphys, "instrs": [[a, list(b), c] for a, b, c in instrs], "meas": meas,
                          "psi0": [[float(z.real), float(z.imag)] for z in psi0], "what": why}
             # correspondence of the call sequence (recording gate set, distinct tables)
-            if C is not None and t < (4 if ck.tier == "quick" else 20):
+            # (the layered branch is traced for n <= 4 only: circuit_trace.py; larger layered cases have no predicted table)
+            if C is not None and t < (4 if ck.tier == "quick" else 20) and (binary or n <= 4):
                 dev = sc.dev_distinct(nphys)
                 try:
                     log, _, _ = sc.run_spy(cls, labels, instrs, nphys, dev)
